@@ -312,3 +312,16 @@ Proof.
   - right. rewrite !isTop_q2n. auto.
   - left. rewrite !isRight_q2n. auto.
 Qed.
+
+(** no child is returned twice *)
+Corollary findIntersectingQuadrants_NoDup (a b : pt) (has : nat -> option quad) (p : quad) (P : extent) :
+  CentreIn P (qcen p) ->
+  (containsPoint a (qext p) = true -> containsPoint a P = true) ->
+  (containsPoint b (qext p) = true -> containsPoint b P = true) ->
+  (forall i cq, has i = Some cq -> qext cq = childExt P (qcen p) i) ->
+  NoDup (findIntersectingQuadrants a b has p).
+Proof.
+  intros C Ha Hb Hh. destruct (findIntersectingQuadrants_spec a b has p P C Ha Hb Hh) as [S1 S2].
+  apply (ssorted_NoDup (fun u v => Before a b (qext u) (qext v))); [| exact S2].
+  intros cq Hc. apply before_irrefl. apply S1 in Hc as [i [_ [_ M]]]. exact M.
+Qed.
